@@ -3,6 +3,7 @@ package pos
 import (
 	"fmt"
 	"github.com/pokt-network/posmint/x/pos/keeper"
+	"sort"
 	"time"
 
 	sdk "github.com/pokt-network/posmint/types"
@@ -105,20 +106,31 @@ func InitGenesis(ctx sdk.Ctx, keeper keeper.Keeper, supplyKeeper types.AuthKeepe
 		},
 	)
 	// update signing information from genesis state
-	for addr, info := range data.SigningInfos {
+	// (in address order: the store's hash depends on the order of the writes, a Go map has none)
+	signingInfoAddrs := make([]string, 0, len(data.SigningInfos))
+	for addr := range data.SigningInfos {
+		signingInfoAddrs = append(signingInfoAddrs, addr)
+	}
+	sort.Strings(signingInfoAddrs)
+	for _, addr := range signingInfoAddrs {
 		address, err := sdk.AddressFromHex(addr)
 		if err != nil {
 			panic(err)
 		}
-		keeper.SetValidatorSigningInfo(ctx, address, info)
+		keeper.SetValidatorSigningInfo(ctx, address, data.SigningInfos[addr])
 	}
 	// update missed block information from genesis state
-	for addr, array := range data.MissedBlocks {
+	missedBlocksAddrs := make([]string, 0, len(data.MissedBlocks))
+	for addr := range data.MissedBlocks {
+		missedBlocksAddrs = append(missedBlocksAddrs, addr)
+	}
+	sort.Strings(missedBlocksAddrs)
+	for _, addr := range missedBlocksAddrs {
 		address, err := sdk.AddressFromHex(addr)
 		if err != nil {
 			panic(err)
 		}
-		for _, missed := range array {
+		for _, missed := range data.MissedBlocks[addr] {
 			keeper.SetMissedBlockArray(ctx, address, missed.Index, missed.Missed)
 		}
 	}
